@@ -244,8 +244,8 @@ func GenHist(id int, rng *rand.Rand) HistScenario {
 			sc.Ops = append(sc.Ops, HistOp{Op: "Update", D: d, R: r, St: st})
 		case 7:
 			d, d2 := dags[rng.Intn(3)], dags[rng.Intn(3)]
-			if d == d2 || (open != "" && runs[open].dag == d) {
-				continue
+			if (d == d2 && rng.Intn(4) > 0) || (open != "" && runs[open].dag == d) {
+				continue // (a rename onto the same name is issued now and then: it must change nothing)
 			}
 			for _, ru := range runs {
 				if ru.dag == d {
